@@ -11,17 +11,17 @@
  'inject': [{'file': 'overlay:cxx/base64_cxx.c', 'func': 'base64_decode_str', 'loop': 0, 'expect': 'while (in_len--',
              'assigns': 'in_len, i, in_, __CPROVER_object_whole(char_array_4), __CPROVER_object_whole(char_array_3), ret.size, __CPROVER_object_whole(ret.p)',
              'invariants': ['0 <= in_ && (size_t)in_ <= g_len && in_len == g_len - (size_t)in_',
-                            '0 <= i && i <= 3 && i == in_ % 4',
-                            'ret.size == 3 * (size_t)(in_ / 4) && ret.size <= ret.cap',
+                            '0 <= i && i <= 3 && i == (in_ & 3)',
+                            'ret.size == 3 * SPEC_B64_GRP(in_) && ret.size <= ret.cap',
                             'C18_IMP(i > 0, char_array_4[0] == (unsigned char)g_t[in_ - i] && SPEC_B64_IS(0, g_t[in_ - i]))',
                             'C18_IMP(i > 1, char_array_4[1] == (unsigned char)g_t[in_ - i + 1] && SPEC_B64_IS(0, g_t[in_ - i + 1]))',
                             'C18_IMP(i > 2, char_array_4[2] == (unsigned char)g_t[in_ - i + 2] && SPEC_B64_IS(0, g_t[in_ - i + 2]))',
                             'C18_IMP(g_p < (size_t)in_, SPEC_B64_IS(0, g_t[g_p]))',
-                            'C18_IMP(g_dg < (size_t)(in_ / 4), (unsigned char)ret.p[3 * g_dg + g_dc] == SPEC_B64Q_DEC_BYTE(0, g_t, (size_t)(in_ / 4), 0, g_dg, g_dc))'],
+                            'C18_IMP(g_dg < SPEC_B64_GRP(in_), (unsigned char)ret.p[3 * g_dg + g_dc] == SPEC_B64Q_DEC_BYTE(0, g_t, SPEC_B64_GRP(in_), 0, g_dg, g_dc))'],
              'decreases': 'in_len'},
             {'file': 'overlay:cxx/base64_cxx.c', 'func': 'base64_decode_str', 'ghost': 'g_m = (size_t)in_;', 'at': 'before', 'anchor': 'if (i)'}],
  'unwindset': ['base64_decode_str.0:5', 'base64_decode_str.1:4', 'base64_decode_str.3:4', 'base64_decode_str.4:5', 'base64_decode_str.5:3'],
- 'unwind': 67,
+ 'unwind': 67, 'solver': 'cadical',
  'complete_unwinding': 'inner loops of base64_decode have fixed trip counts (4 lookups, 3 appends, at most 3 fillers, 4 lookups, at most 2 appends); strchr (cbmc library model, '
                        'ISO C 7.24.5.2) scans the 65-character constant base64_charset: at most 66 iterations; all with unwinding assertions',
  'trusted': ['libstdc++ std::string implements size / operator[] const / default construction / operator+=(char) as ISO C++ [basic.string] specifies (stub spec/c18_string_stub.h)',
@@ -70,7 +70,7 @@ void harness(void)
 
     struct vc_string res = base64_decode_str(&arg);
 
-    size_t m = g_m, mq = m / 4, mr = m % 4;
+    size_t m = g_m, mq = SPEC_B64_GRP(m), mr = SPEC_B64_POS(m); /* m == 4*mq + mr */
     __CPROVER_assert(m <= len && (m == len || !SPEC_B64_IS(0, t[m])), "the scan stops at the end, at the pad or at a foreign character");
     __CPROVER_assert(!(p < m) || SPEC_B64_IS(0, t[p]), "every character before the stop is an alphabet character (m is the longest alphabet prefix)");
     __CPROVER_assert(res.size == SPEC_B64Q_DEC_LEN(mq, mr), "length is floor(6m/8)");
